@@ -24,6 +24,7 @@ type Prog struct {
 	Str     string            // string mode: the template
 	Data    TV                // caller data (map)
 	WantErr bool
+	NoData  bool // rendered without any caller data (nil): everything comes from front-matter
 }
 
 func catFuncs() vuego.FuncMap {
@@ -176,6 +177,9 @@ func Catalogue() []Prog {
 	add("full-document", F, "<!DOCTYPE html>\n<html lang=\"en\"><head><meta charset=\"utf-8\"><title>{{ title }}</title></head><body class=\"b\"><p v-if=\"show\">{{ user.name }}</p></body></html>", nil, nil, false)
 	add("file-filter", F, `<pre v-html="file('@D/inc.txt')"></pre><p>{{ incpath | file }}</p>`, map[string]string{"inc.txt": "included <text> & more"}, map[string]TV{"incpath": tvS("@D/inc.txt")}, false)
 
+	// no caller data at all: the page's own front-matter is the whole scope, and the page writes into the root scope
+	add("fm-only-accumulate", F, "---\ntotal: 0\nstep: 3\nrows:\n  - 1\n  - 2\n---\n<i v-if=\"seen\">seen before</i><i v-else>first time</i><template :seen=\"step > 1\"></template><template v-for=\"r in rows\"><template :total=\"total + step\"></template></template><p>total={{ total }} step={{ step }}</p>", nil, nil, false)
+	out[len(out)-1].NoData = true
 	// the same expression texts over differently typed data (anything cached per expression text must not depend on the first data seen)
 	retype := `<p>{{ rv == rw }}|{{ rv != 1 }}|{{ rv == 'a' }}|{{ ro.f == rw }}</p><i v-if="rv == rw">eq</i><b :data-v="rv == rw ? 'y' : 'n'">k</b><u v-for="x in rmixed">{{ x == 1 }},</u>`
 	add("retype-int", S, retype, nil, map[string]TV{"rv": tvI(1), "rw": tvI(1), "ro": tvMap(map[string]TV{"f": tvI(1)}), "rmixed": tvList(tvI(1), tvS("a"), tvF(2.5), tvB(true))}, false)
@@ -269,6 +273,19 @@ var catEntryPoints = []string{"load-render", "renderfile", "vue-render", "vue-fr
 func (e *catEngine) run(p *Prog, ep string, data any) (string, error) {
 	var b bytes.Buffer
 	var err error
+	if p.NoData {
+		switch ep {
+		case "load-render":
+			err = e.base.Load(p.Entry).Render(bg, &b)
+		case "renderfile":
+			err = e.base.New().RenderFile(bg, &b, p.Entry)
+		case "vue-render":
+			err = e.vue.Render(&b, p.Entry, nil)
+		case "vue-fragment":
+			err = e.vue.RenderFragment(&b, p.Entry, map[string]any{})
+		}
+		return b.String(), err
+	}
 	if p.Mode == "string" {
 		switch ep {
 		case "renderfile", "vue-fragment":
